@@ -39,6 +39,7 @@ type recGen struct {
 	finOut     string
 	finErr     bool
 	imports    []string
+	silent     bool
 	log        *[]string
 }
 
@@ -220,7 +221,7 @@ func c04errClass(err error) string {
 		sort.Strings(fs)
 		return list(tag("assemble", atoms(fs)))
 	}
-	return list(tag("other", atom(m)))
+	return list(tag("?", atom(m))) // an error, but not one of the wordings known here: matches any error the model predicts
 }
 
 type c04config struct {
@@ -262,6 +263,15 @@ func (g *Gen) c04gen(i int, ntypes int, hookFaults bool) *recGen {
 	rg.finOut = g.Pick([]string{"", fmt.Sprintf("// fin %d\n", i)})
 	for k := g.R.Intn(3); k > 0; k-- {
 		rg.imports = append(rg.imports, g.Pick([]string{"fmt", "os", "x \"ex.test/x\"", "k8s.io/api"}))
+	}
+	if g.Chance(0.2) {
+		// contributes variables, constants and imports only: writes no byte of body
+		rg.filter, rg.filterL = map[int]bool{}, nil
+		rg.initOut, rg.finOut = "", ""
+		rg.silent = true
+		if len(rg.imports) == 0 {
+			rg.imports = []string{"time"}
+		}
 	}
 	if hookFaults && g.Chance(0.25) {
 		switch g.R.Intn(3) {
@@ -359,6 +369,10 @@ func c04run(g *Gen, c c04config, entry string, cls []string) {
 		fs := ""
 		if strings.Contains(ec, atom("unknown-filetype")) {
 			fs = tag("unspecified")
+		} else if strings.Contains(ec, atom("?")) {
+			// an error in an unknown wording: whether the files written so far are specified depends on
+			// which error it is; the files slot then matches anything
+			fs = tag("??", atoms(files))
 		} else {
 			sort.Strings(files)
 			var it []string
@@ -387,6 +401,11 @@ func c04run(g *Gen, c c04config, entry string, cls []string) {
 		for _, n := range names {
 			if n > 1 {
 				cls = append(cls, "shared-file")
+			}
+		}
+		for _, gg := range t.gens {
+			if gg.silent {
+				cls = append(cls, "silent-generator")
 			}
 		}
 	}
@@ -448,7 +467,7 @@ func fwErrS(err error) string {
 	if errors.As(err, &fe) {
 		return list(num(fe.id))
 	}
-	return list(atom("other:" + err.Error()))
+	return list(tag("?", atom(err.Error())))
 }
 
 func c13(g *Gen) {
